@@ -7,6 +7,7 @@ mod common;
 mod stylefmt;
 mod treegen;
 mod c02;
+mod hist;
 mod c09;
 mod evaltree;
 mod pairs;
@@ -80,6 +81,10 @@ fn main() {
     let mut out = Out::new(&out_dir);
     let extra = match prop.as_str() {
         "C02" => c02::run(&cfg, &mut out),
+        "C01" => hist::run_c01(&cfg, &mut out),
+        "C01trace" => hist::run_c01_trace(&cfg, &mut out),
+        "C16" => hist::run_c16(&cfg, &mut out),
+        "C17" => hist::run_c17(&cfg, &mut out),
         "C09" => c09::run(&cfg, &mut out),
         "EVAL" => evaltree::run(&cfg, &mut out),
         "C04" => pairs::run_c04(&cfg, &mut out),
